@@ -293,6 +293,39 @@ func c07(p *core.Program, r *core.Report) {
 		}
 	}
 
+	// ---- rule 4b: decoded positions reach a geometry only through SetCoords (which re-checks every position's length)
+	const r4b = "decode-through-setcoords"
+	r.Rule(r4b, "no function of package geojson on the decoding path ((*Geometry).Decode and the helpers of the package it calls) builds a geometry with a geom.New*Flat constructor: those trust their caller, whereas the layout is only guessed from the first position; every decoded geometry is New<Type>(layout) followed by SetCoords, whose deflate step rejects a position of another length", 1)
+	if dec := mustFn(p, r, r4b, rel, "(*Geometry).Decode"); dec != nil {
+		seen := map[*ssa.Function]bool{}
+		var flat []string
+		nset := 0
+		var scan func(fn *ssa.Function, depth int)
+		scan = func(fn *ssa.Function, depth int) {
+			if fn == nil || seen[fn] || depth > 3 || len(fn.Blocks) == 0 {
+				return
+			}
+			seen[fn] = true
+			for _, c := range eng.Calls(fn) {
+				f := eng.StaticCallee(c)
+				if f == nil {
+					continue
+				}
+				if core.FnPkgPath(f) == mod && f.Signature.Recv() == nil && strings.HasPrefix(f.Name(), "New") && strings.Contains(f.Name(), "Flat") {
+					flat = append(flat, f.Name()+" at "+p.Pos(c.Pos()))
+				}
+				if core.FnPkgPath(f) == mod && f.Name() == "SetCoords" {
+					nset++
+				}
+				if core.FnPkgPath(f) == mod+"/"+rel {
+					scan(f, depth+1)
+				}
+			}
+		}
+		scan(dec, 0)
+		r.Check(len(flat) == 0 && nset >= 1, r4b, short(dec), p.Pos(dec.Pos()), true, fmt.Sprintf("%d SetCoords calls, no flat constructor", nset), fmt.Sprintf("the decoder builds geometries with %v (SetCoords calls: %d): positions after the first are not checked against the guessed layout, a ragged array yields a malformed geometry", flat, nset))
+	}
+
 	// ---- rule 5: field coverage of Feature / FeatureCollection
 	const r5 = "feature-field-coverage"
 	r.Rule(r5, "every field of Feature{ID,BBox,Geometry,Properties} and FeatureCollection{BBox,Features} is read by MarshalJSON and written by UnmarshalJSON", 12)
